@@ -235,6 +235,50 @@ fn deflection_flat_lists(rep: &Report) {
     }
 }
 
+/// `deflection` on two adjacent SLOPED geoids: the grid is selected by the point itself (first grid containing it,
+/// then the first within the margin), also when the point is so close to that grid's rim that the auxiliary
+/// points 1 m north / east of it fall into the margin
+fn deflection_adjacent_lists(rep: &Report) {
+    let g1 = GeoDeg { lat_s: 54., lat_n: 58., lon_w: 8., lon_e: 16., dlat: 1., dlon: 1. };
+    let g2 = GeoDeg { lat_s: 50., lat_n: 54., lon_w: 8., lon_e: 16., dlat: 1., dlon: 1. };
+    let (a, ra) = make_base(&g1, 1, 51);
+    let (b, rb) = make_base(&g2, 1, 52);
+    let mut ctx = GridCtx::default();
+    ctx.add_grid("north.geoid", a);
+    ctx.add_grid("south.geoid", b);
+    let ell = crate::geo::ref_ellipsoid("GRS80").unwrap();
+    let m = 1. / 111_000.;
+    for (list, first_is_north) in [("north.geoid, south.geoid", true), ("south.geoid, north.geoid", false)] {
+        let def = format!("deflection grids={list}");
+        let Ok(op) = ctx.op(&def) else {
+            rep.violation("grid operator with a list of generated grids cannot be instantiated", json!({"def": def}));
+            continue;
+        };
+        // just south of the common border (inside the southern grid only), just north of it (northern grid only)
+        for (lat, in_north) in [(54. - 0.1 * m, false), (54. - 0.7 * m, false), (54. - 30. * m, false), (54. + 0.4 * m, true), (54. + 25. * m, true), (51.3, false), (56.6, true)] {
+            for lon in [9.3, 12.1, 15.95] {
+                rep.eval(1);
+                let _ = first_is_north;
+                let r = if in_north { &ra } else { &rb };
+                let (l, p) = (f64::to_radians(lon), f64::to_radians(lat));
+                let dphi = 1. / ell.m(p);
+                let dlam = 1. / (ell.n(p) * p.cos());
+                let n0 = r.at(l, p)[0];
+                let xi = (r.at(l, p + dphi)[0] - n0).atan().to_degrees() * 3600.;
+                let eta = (r.at(l + dlam, p)[0] - n0).atan().to_degrees() * 3600.;
+                let mut d = [Coor4D([lat, lon, 0., 0.])];
+                let n = ctx.apply(op, Fwd, &mut d).unwrap_or(usize::MAX);
+                if n != 1 || (d[0][0] - xi).abs() > 1e-2 * xi.abs().max(1.) || (d[0][1] - eta).abs() > 1e-2 * eta.abs().max(1.) {
+                    rep.violation(
+                        "deflection next to the common border of two grids is not the slope of the grid containing the point",
+                        json!({"def": def, "lat_deg": lat, "lon_deg": lon, "containing_grid": if in_north { "north.geoid" } else { "south.geoid" }, "count": n, "observed_arcsec": [d[0][0], d[0][1]], "expected_arcsec": [xi, eta]}),
+                    );
+                }
+            }
+        }
+    }
+}
+
 /// `gridshift` on a list mixing a datum shift grid and a geoid: either refused, or every point gets the kind of
 /// correction (and the unit) of the grid that serves it - never a geoid height added to a longitude
 fn mixed_kind_lists(rep: &Report) {
@@ -990,6 +1034,10 @@ pub fn run(tier: Tier) -> Report {
         Err(p) => rep.violation(&format!("panic in a grid operator: {}", panic_class(&p)), json!({"panic": p})),
     }
     match catch(|| mixed_kind_lists(&rep)) {
+        Ok(()) => {}
+        Err(p) => rep.violation(&format!("panic in a grid operator: {}", panic_class(&p)), json!({"panic": p})),
+    }
+    match catch(|| deflection_adjacent_lists(&rep)) {
         Ok(()) => {}
         Err(p) => rep.violation(&format!("panic in a grid operator: {}", panic_class(&p)), json!({"panic": p})),
     }
